@@ -68,19 +68,19 @@ macro_rules | `(tactic| inert_step) => `(tactic| (with_reducible refine Inert.re
 def InertCmd : Cmd → Prop
   | .hold _ | .yield | .timerAdd _ _ _ | .timerSet _ _ _ | .timerCancel _ | .timersClear | .resume _ _ | .interrupt _ _ _
   | .start _ | .waitProc _ | .schedUser _ _ _ | .cancelUser _ | .waitEvent _ | .setFlag _ _ | .recStart _ _ | .recStop _ _
-  | .pqPos _ _ | .cancelUserAll => True
+  | .pqPos _ _ | .cancelUserAll | .timersClearOf _ | .timerAddOf _ _ _ => True
   | _ => False
 
 /-- these commands leave the waiting lists, the objects, the RESOURCE awaitables and the pending grants alone — provided
     the handles they cancel by value are not handles of grants -/
 theorem inert_execCmd (c : Cmd) (hc : InertCmd c) (hi : EvInv w.ev)
     (hcv : ∀ v, (c = .cancelUser v ∨ c = .timerCancel v) → NG w (getVar w p v))
-    (hat : ∀ k, Await.time k ∈ (w.proc p).awaits → NG w k) : Inert w (execCmd w p c).1 := by
+    (hat : ∀ q k, Await.time k ∈ (w.proc q).awaits → NG w k) : Inert w (execCmd w p c).1 := by
   have h0 := Inert.refl w
   cases c with
   | timerSet v d sig =>
     simp only [Sim.execCmd]
-    exact (((Inert.refl w).timersClear p hat).timerAdd_fst p d sig).setVar p v _
+    exact (((Inert.refl w).timersClear p (hat p)).timerAdd_fst p d sig).setVar p v _
   | timerCancel v =>
     simp only [Sim.execCmd]
     split
@@ -88,7 +88,13 @@ theorem inert_execCmd (c : Cmd) (hc : InertCmd c) (hi : EvInv w.ev)
     · exact h0.timerCancel_fst p _ (hcv v (Or.inr rfl))
   | timersClear =>
     simp only [Sim.execCmd]
-    exact h0.timersClear p hat
+    exact h0.timersClear p (hat p)
+  | timersClearOf q =>
+    simp only [Sim.execCmd]
+    split
+    · exact h0
+    · exact h0.timersClear q (hat q)
+  | timerAddOf q d sig => simp only [Sim.execCmd]; inert
   | cancelUser v =>
     simp only [Sim.execCmd]
     split
